@@ -3,7 +3,8 @@
     the committed state a crash at that instant leaves). Engine assumption
     (trusted base): transactions are atomic, and durable once Commit returned. *)
 From Coq Require Import List NArith Bool Arith.
-From Atlas Require Import Base.Bytes Exec.ExecModel Exec.PendingModel Exec.RunModel Exec.TxModel Exec.TxProofs.
+From Atlas Require Import Base.Bytes Base.Stutter Exec.ExecModel Exec.ExecProofs Exec.StepProofs Exec.PendingModel Exec.PendingProofs
+  Exec.RunModel Exec.TxModel Exec.TxProofs Exec.RunProofs Exec.CrashProofs.
 Import ListNotations.
 
 Section C10.
@@ -53,11 +54,119 @@ Proof.
   eapply Ht. eapply crash_state_in; eauto.
 Qed.
 
+(** ** re-running the same command completes the migration
+
+    Setting: one directory [dir] (files strictly sorted by version, no checkpoint
+    file, no txmode directive, no failing statement: [clean]); [hash_eqb] decides
+    equality of hashes. [plan all] = the statements of all files in order.
+    [Bd c k] ("file boundary"): the journal of [c] holds exactly the statements of
+    the first [k] files and the revision table their complete revisions -- the
+    empty database is [Bd _ 0] ([Bd_empty]); the theorems show that every
+    crashed state and every state after the re-run is again such a state (file,
+    all) resp. a resume state [DInv] (none), so they apply to any number of
+    crashes and re-runs, and to any count argument [n] of the crashed command. *)
+Section Rerun.
+Hypothesis hash_eqb_spec : forall a b, hash_eqb a b = true <-> a = b.
+Variable dir : list tfile.
+Let all := map tf_file dir.
+Hypothesis all_sorted : sorted_files all.
+Hypothesis all_no_checkpoint : forall f, In f all -> f_ckpt f = false.
+Hypothesis no_directives : no_directive dir.
+Hypothesis no_failing_statement : clean dir.
+
+(** file: wherever the process dies, the database holds whole files only, and
+    running `migrate apply` again ends with every statement's effect present
+    exactly once and every revision complete. *)
+Theorem C10_file_rerun_completes :
+  forall (c0 : db hash) k0 n o c1 tr pt i d,
+  Bd hash HS dir c0 k0 ->
+  apply_run hash hash_eqb HS TxFile n dir c0 = (o, c1, tr) ->
+  crash_state hash tr pt i = Some d ->
+  (exists j, Bd hash HS dir d j /\ d_journal d = map snd (plan (firstn j all))) /\
+  exists o2 c2 tr2,
+    apply_run hash hash_eqb HS TxFile 0 dir d = (o2, c2, tr2) /\
+    (o2 = ADone \/ o2 = APend PNoPending) /\
+    completed hash dir c2 /\ Bd hash HS dir c2 (length all).
+Proof.
+  intros c0 k0 n o c1 tr pt i d.
+  exact (file_crash_rerun hash hash_eqb HS hash_eqb_spec dir all_sorted all_no_checkpoint no_directives
+           c0 k0 n o c1 tr pt i d no_failing_statement).
+Qed.
+
+(** all: a crash leaves the state before the command or (after the final commit)
+    its final state; the re-run completes exactly once. *)
+Theorem C10_all_rerun_completes :
+  forall (c0 : db hash) k0 n o c1 tr pt i d,
+  Bd hash HS dir c0 k0 ->
+  apply_run hash hash_eqb HS TxAll n dir c0 = (o, c1, tr) ->
+  crash_state hash tr pt i = Some d ->
+  (d = c0 \/ (pt = AfterCommit /\ d = c1 /\ o = ADone)) /\
+  (exists j, Bd hash HS dir d j /\ d_journal d = map snd (plan (firstn j all))) /\
+  exists o2 c2 tr2,
+    apply_run hash hash_eqb HS TxAll 0 dir d = (o2, c2, tr2) /\
+    (o2 = ADone \/ o2 = APend PNoPending) /\
+    completed hash dir c2 /\ Bd hash HS dir c2 (length all).
+Proof.
+  intros c0 k0 n o c1 tr pt i d.
+  exact (all_crash_rerun hash hash_eqb HS hash_eqb_spec dir all_sorted all_no_checkpoint no_directives
+           c0 k0 n o c1 tr pt i d no_failing_statement).
+Qed.
+
+(** none: the re-run completes; no statement is lost, the final journal is the
+    plan in order where statement i occurs 1 + reps[i] times and the repeats sum
+    to at most one per crash ([D] = repeats inherited from earlier crashes;
+    [D = 0] from a file boundary, e.g. the empty database): at most the one
+    statement in flight at the crash is executed twice. *)
+Theorem C10_none_rerun_completes :
+  forall (c0 : db hash) D n o c1 tr pt i d,
+  DInv hash HS dir c0 D ->
+  apply_run hash hash_eqb HS TxNone n dir c0 = (o, c1, tr) ->
+  crash_state hash tr pt i = Some d ->
+  DInv hash HS dir d (D + 1) /\
+  exists o2 c2 tr2,
+    apply_run hash hash_eqb HS TxNone 0 dir d = (o2, c2, tr2) /\
+    (o2 = ADone \/ o2 = APend PNoPending) /\
+    (exists reps, length reps = length (plan all) /\ list_sum reps <= D + 1 /\
+                  d_journal c2 = map snd (expand (plan all) reps)) /\
+    (forall f, In f all -> exists r, tbl_get (d_tbl c2) (f_version f) = Some r /\
+                                     r_applied r = length (f_stmts f) /\ r_total r = length (f_stmts f)) /\
+    DInv hash HS dir c2 (D + 1).
+Proof.
+  intros c0 D n o c1 tr pt i d.
+  exact (none_crash_rerun hash hash_eqb HS hash_eqb_spec dir all_sorted all_no_checkpoint no_directives
+           c0 D n o c1 tr pt i d no_failing_statement).
+Qed.
+
+(** The revision table never records a statement whose effect is not in the
+    database: in every crashed state, in every mode, the table claims exactly the
+    plan up to a position [P], the journal holds the plan up to [E] (with at most
+    one repeat) and [P <= E <= P + 1]. *)
+Theorem C10_rev_sound :
+  forall global (c0 : db hash) k0 n o c1 tr pt i d,
+  Bd hash HS dir c0 k0 ->
+  apply_run hash hash_eqb HS global n dir c0 = (o, c1, tr) ->
+  crash_state hash tr pt i = Some d ->
+  exists P E reps,
+    P <= E /\ E <= P + 1 /\ E <= length (plan all) /\ length reps = E /\ list_sum reps <= 1 /\
+    d_journal d = map snd (expand (firstn E (plan all)) reps) /\
+    claimed_plan hash all (d_tbl d) = firstn P (plan all).
+Proof.
+  intros global c0 k0 n o c1 tr pt i d.
+  exact (rev_sound_lemma hash hash_eqb HS hash_eqb_spec dir all_sorted all_no_checkpoint no_directives
+           global c0 k0 n o c1 tr pt i d no_failing_statement).
+Qed.
+
+End Rerun.
+
 End C10.
 
 Print Assumptions C10_all_atomic.
 Print Assumptions C10_file_never_half_applied.
 Print Assumptions C10_none_prefix.
+Print Assumptions C10_file_rerun_completes.
+Print Assumptions C10_all_rerun_completes.
+Print Assumptions C10_none_rerun_completes.
+Print Assumptions C10_rev_sound.
 
 Definition s (n : N) : bytes := [40%N; n; 41%N].
 Definition ex_dir : list tfile :=
@@ -77,4 +186,41 @@ Example C10_none_crash_nonvacuous :
   let '(_, _, tr) := apply_run bytes bytes_eqb (fun b => b) TxNone 0 ex_dir ex_db0 in
   option_map (@d_journal bytes) (crash_state bytes tr AfterExec 2) = Some [s 1; s 2] /\
   option_map (@d_journal bytes) (crash_state bytes tr BeforeExec 2) = Some [s 1].
+Proof. vm_compute. repeat split; reflexivity. Qed.
+
+(** Non-vacuity of the re-run theorems: the example directory meets the
+    hypotheses, the empty database is a file boundary, and a crash after the
+    third statement in none mode followed by the re-run executes it twice. *)
+Example C10_rerun_hyps_nonvacuous :
+  sorted_files (map tf_file ex_dir) /\ (forall f, In f (map tf_file ex_dir) -> f_ckpt f = false) /\
+  no_directive ex_dir /\ clean ex_dir /\ Bd bytes (fun b => b) ex_dir ex_db0 0.
+Proof.
+  split; [unfold sorted_files, fver_lt; repeat constructor|].
+  split; [intros f [<-|[<-|[]]]; reflexivity|].
+  split; [intros f [<-|[<-|[]]]; reflexivity|].
+  split; [intros f [<-|[<-|[]]]; reflexivity|].
+  apply Bd_empty.
+Qed.
+
+Example C10_none_rerun_nonvacuous :
+  let '(_, _, tr) := apply_run bytes bytes_eqb (fun b => b) TxNone 0 ex_dir ex_db0 in
+  match crash_state bytes tr AfterExec 3 with
+  | Some d =>
+      d_journal d = [s 1; s 2; s 3] /\
+      map (fun r => (r_applied r, r_total r)) (d_tbl d) = [(2, 2); (0, 1)] /\
+      let '(o2, c2, _) := apply_run bytes bytes_eqb (fun b => b) TxNone 0 ex_dir d in
+      o2 = ADone /\ d_journal c2 = [s 1; s 2; s 3; s 3]
+  | None => False
+  end.
+Proof. vm_compute. repeat split; reflexivity. Qed.
+
+Example C10_file_rerun_nonvacuous :
+  let '(_, _, tr) := apply_run bytes bytes_eqb (fun b => b) TxFile 0 ex_dir ex_db0 in
+  match crash_state bytes tr AfterExec 3 with
+  | Some d =>
+      d_journal d = [s 1; s 2] /\
+      let '(o2, c2, _) := apply_run bytes bytes_eqb (fun b => b) TxFile 0 ex_dir d in
+      o2 = ADone /\ d_journal c2 = [s 1; s 2; s 3]
+  | None => False
+  end.
 Proof. vm_compute. repeat split; reflexivity. Qed.
